@@ -28,4 +28,13 @@ PROPS = {
         "trusted": ["$jsonSchema evaluation is a parameter of the laws; regex keywords unmodelled"],
         "assumptions": ["MongoDB semantics = DESIGN §8 reference semantics (no server available offline)"],
     },
+    "C06": {
+        "props_modules": ["Lungo.Props.C06"],
+        "audit_files": ["Lungo/Audit/C06.lean"],
+        "tie_modules": [],
+        "streams": [("codec", 20000), ("reload", 150)],
+        "thorough_mult": 30,
+        "trusted": ["mongo-driver/bson Marshal/Unmarshal (compared byte for byte with the model codec)", "index build on load is the parameter indexOk of reload_identity"],
+        "assumptions": ["strings/keys are valid UTF-8; BSON types outside the 13 supported ones do not occur"],
+    },
 }
